@@ -29,10 +29,12 @@
       are degenerate or take the fast path (`ShapesPointsOrDirect`, decidable) — e.g. every index of points, wherever they lie.
       Unconditional special case: `faceEdgesOK_of_direct` / `build_I1_direct` for shapes all of whose edges take the `maxUV` fast
       path (`ShapesDirect`, decidable without evaluating any clipping).
-      FINDING (`clipPaddedBounded_false`): the natural postcondition of `ClipToPaddedFace` itself — endpoints inside the padded
-      face — is FALSE for unit-ish endpoints that differ only by subnormal amounts (`PointCross` underflows, the re-projected
-      endpoint has u = −1.1108 on face 2); model and `/repo` agree bit for bit.  `addFaceEdge` is shielded by its fast path on
-      that input, so `faceEdgesOK_of_unit` is neither proved nor refuted.
+      FINDING (`clipPaddedBounded_false`, part of D60, REPAIRED): the natural postcondition of `ClipToPaddedFace` itself — endpoints
+      inside the padded face — was FALSE for unit-ish endpoints that differ only by subnormal amounts (the pre-repair `PointCross`
+      underflowed, the re-projected endpoint had u = −1.1108 on face 2); stated on the faithful pre-repair function
+      `clipToPaddedFaceOld` (= the body of `clipToPaddedFace` with `Crossing.pointCrossOld`); after the repair the edge is rejected
+      on that face (`exF1_clip_repaired`).  `addFaceEdge` was shielded by its fast path on that input.  For the repaired function the
+      postcondition (`ClipPaddedBounded`) is open: neither proved nor refuted.
   (2) `FaceClipSound`, the spherical meaning: `MeetsSphere f v0 v1 c` (a point of the great-circle arc has gnomonic image on
       face `f` inside the uv-rectangle of `c`).  Same-face case PROVED: gnomonic projection maps great circles to lines
       (`gnomonic_maps_arcs_to_segments`, exact), `validFaceXYZToUV` is within `2^-54` per coordinate of the exact image
@@ -40,13 +42,18 @@
   (3) `sphere_I1_sameFace_partial`: every spherical edge with both endpoints on face `f` is listed in every index cell of
       face `f` that it meets (under `VerticesUnit`, `ReprojOK`); `sphere_I1_direct`, `sphere_I1_points`: the same with decidable
       hypotheses only.
-  FINDING (`faceClipDocumented_false`): the documented `faceClipErrorUVDist = 9·dblEpsilon` fails by a factor > 100 for endpoints that
-      are antipodal up to one ulp per coordinate (kernel evaluation of the model = `/repo`, exact rational distance to the great
-      circle); through the index this is a C06 violation in `/repo` (replay in `docs/delivered/c06face_experiments`).
+  FINDING (`faceClipDocumented_false`, D60, REPAIRED): the documented `faceClipErrorUVDist = 9·dblEpsilon` failed by a factor > 100 for
+      endpoints that are antipodal up to one ulp per coordinate (kernel evaluation of the pre-repair function `clipToPaddedFaceOld`
+      = `/repo` before the repair, exact rational distance to the great circle: 1085.9 dblEpsilon); through the index this was a
+      C06 violation (replay `corpus/C06/fixed_D60_pointcross_antipodal.txt`).  After the repair (exact fallback in `PointCross`) the
+      same endpoint is 0.017 dblEpsilon from the exact circle (`exF2_clip_repaired`, `exF2_near_repaired`); the two functions agree
+      wherever the float `PointCross` passes its threshold (`clipToPaddedFace_eq_old`).  `FaceClipDocumented` for the repaired
+      function is open.
 -/
 import S2Proofs.Properties.C06_ClipFloat
 import S2Proofs.C06Face.Sphere
 import S2Proofs.C06Face.Degen
+import S2Proofs.Properties.C06_PointCross
 
 namespace S2Proofs.C06Clip
 open S2 S2.CellID S2.CellM S2.PaddedCellM S2.IndexBuild S2Proofs.F64Order S2Proofs.C06BuildH S2Proofs.C06Build
@@ -305,26 +312,59 @@ example : I1 exPoints MeetsReal := build_I1_points exPoints (by decide +kernel) 
 example : ((allFaceEdges exPoints).map (fun x => (x.1, x.2.edgeID))) = [(0, 0), (1, 0), (2, 0), (0, 1), (1, 1), (0, 2)] := by
   decide +kernel
 
-/-! ### FINDING: the natural postcondition of `ClipToPaddedFace` is false (PointCross underflow) -/
+/-! ### FINDING (D60, repaired): the natural postcondition of `ClipToPaddedFace` was false (PointCross underflow) -/
 
 /-- the natural postcondition of `ClipToPaddedFace(a, b, f, cellPadding)`: the returned uv endpoints lie in the padded face (up to
     `2^-40`).  FALSE — see `clipPaddedBounded_false`.  (`FaceEdgesOK` is about `addFaceEdge`, whose `maxUV` fast path catches the
     counterexample below; no counterexample to `faceEdgesOK_of_unit` is known.) -/
-def ClipPaddedBounded : Prop :=
+def ClipPaddedBoundedOf (clip : V3 → V3 → Nat → F64 → Option (R2 × R2)) : Prop :=
   ∀ (a b : V3) (f : Nat) (p q : R2), UnitIsh a → UnitIsh b → f < 6 →
-    clipToPaddedFace a b f cellPadding = some (p, q) →
+    clip a b f cellPadding = some (p, q) →
     (CoordOK p.1 ∧ CoordOK p.2) ∧ (CoordOK q.1 ∧ CoordOK q.2)
+
+/-- the postcondition for the CURRENT (repaired, D60) `ClipToPaddedFace`: open (not proved, no counterexample known) -/
+def ClipPaddedBounded : Prop := ClipPaddedBoundedOf clipToPaddedFace
+
+/-- `ClipToPaddedFace` BEFORE repair D60: the same body with the pre-repair `PointCross` (`Crossing.pointCrossOld`:
+    `fl((a+b) × (b−a))`, `Ortho` only when that float vector is exactly zero; no exact fallback) -/
+def clipToPaddedFaceOld (a b : V3) (f : Nat) (padding : F64) : Option (R2 × R2) :=
+  if STUV.face a == f && STUV.face b == f then
+    some (STUV.validFaceXYZToUV f a, STUV.validFaceXYZToUV f b)
+  else
+    let normUVW := faceXYZtoUVW f (Crossing.pointCrossOld a b)
+    let aUVW := faceXYZtoUVW f a
+    let bUVW := faceXYZtoUVW f b
+    let scaleUV := F64.one + padding
+    let scaledN : V3 := ⟨scaleUV * normUVW.x, scaleUV * normUVW.y, normUVW.z⟩
+    if !intersectsFace scaledN then none else
+    let normUVW :=
+      if F64.lt (F64.fmax normUVW.x.abs (F64.fmax normUVW.y.abs normUVW.z.abs)) twoPowM511
+      then normUVW.mul twoPow563 else normUVW
+    let normUVW := normUVW.normalize
+    let aTan := normUVW.cross aUVW
+    let bTan := bUVW.cross normUVW
+    let (aUV, aScore) := clipDestination bUVW aUVW (scaledN.mul negOne) bTan aTan scaleUV
+    let (bUV, bScore) := clipDestination aUVW bUVW scaledN aTan bTan scaleUV
+    if aScore + bScore < 3 then some (aUV, bUV) else none
+
+/-- the two functions agree wherever the float value of `PointCross` passes the threshold test (the repair is conservative) -/
+theorem clipToPaddedFace_eq_old (a b : V3) (f : Nat) (padding : F64)
+    (h : F64.ge (EdgeNum.pointCrossFloat a b).norm2 EdgeNum.pointCrossMinNorm2 = true) :
+    clipToPaddedFace a b f padding = clipToPaddedFaceOld a b f padding := by
+  unfold clipToPaddedFace clipToPaddedFaceOld
+  have e : Crossing.pointCross a b = Crossing.pointCrossOld a b := S2Proofs.C06PointCross.pointCross_eq_old_of_ge a b h
+  rw [e]
 
 /-- `a = (0.7432, 0, √(1−0.7432²))`, `b = a + (0, 2^-1074, 0)`: two unit vectors that differ by the smallest subnormal -/
 def exF1a : V3 := ⟨⟨0x3FE7C84B5DCC63F1⟩, ⟨0⟩, ⟨0x3FE56904120A22C5⟩⟩
 def exF1b : V3 := ⟨⟨0x3FE7C84B5DCC63F1⟩, ⟨1⟩, ⟨0x3FE56904120A22C5⟩⟩
 
-/-- on face 2 the model (like `/repo`: `ClipToPaddedFace(a, b, 2, cellPadding) = (−1.1107967046234235, −0), …, true`) accepts the
+/-- BEFORE repair D60: on face 2 the pre-repair model (like `/repo` then: `ClipToPaddedFace(a, b, 2, cellPadding) = (−1.1107967046234235, −0), …, true`) accepts the
     edge and returns the re-projection of `a`, whose u-coordinate is `−1.1108`: `(a+b) × (b−a)` is `(−1, 0, 1)·2^-1074` after
     underflow (true direction `(−0.669, 0, 0.743)`), so the clipped "great circle" is the line `u = −1` of face 2 although `a`
     lies at `u = −1.11` -/
 theorem exF1_clip :
-    (match clipToPaddedFace exF1a exF1b 2 cellPadding with
+    (match clipToPaddedFaceOld exF1a exF1b 2 cellPadding with
       | some (p, _) => p.1.bits == 0xBFF1C5D2C3EDCB79
       | none => false) = true := by decide +kernel
 
@@ -341,13 +381,13 @@ theorem exF1_notOK : ¬ CoordOK (⟨0xBFF1C5D2C3EDCB79⟩ : F64) := by
   rw [hv, abs_neg, abs_of_pos (by positivity)] at hb
   norm_num at hb
 
-/-- **the postcondition fails**: unit-ish endpoints, face 2, accepted, u-coordinate `−1.1108` -/
-theorem clipPaddedBounded_false : ¬ ClipPaddedBounded := by
+/-- **the postcondition failed BEFORE repair D60**: unit-ish endpoints, face 2, accepted, u-coordinate `−1.1108` -/
+theorem clipPaddedBounded_false : ¬ ClipPaddedBoundedOf clipToPaddedFaceOld := by
   intro h
   have hu1 : UnitIsh exF1a := by decide +kernel
   have hu2 : UnitIsh exF1b := by decide +kernel
   have hc := exF1_clip
-  cases hclip : clipToPaddedFace exF1a exF1b 2 cellPadding with
+  cases hclip : clipToPaddedFaceOld exF1a exF1b 2 cellPadding with
   | none => rw [hclip] at hc; exact absurd hc (by decide)
   | some pq =>
     obtain ⟨p, q⟩ := pq
@@ -360,6 +400,13 @@ theorem clipPaddedBounded_false : ¬ ClipPaddedBounded := by
     rw [hp] at this
     exact exF1_notOK this
 
+/-- AFTER repair D60 the edge is rejected on face 2 (the exact normal `(−a.z, 0, a.x)` does not meet the face), and on face 0 (the
+    face of both endpoints) the same-face shortcut answers: the counterexample is gone -/
+theorem exF1_clip_repaired :
+    (clipToPaddedFace exF1a exF1b 2 cellPadding).isNone = true ∧
+    ((List.range 6).map fun f => (clipToPaddedFace exF1a exF1b f cellPadding).isSome) = [true, false, false, false, false, false] := by
+  decide +kernel
+
 /-- the record `addShapeInternal` would hand to `addFaceEdge` for this edge -/
 def exF1fe : FaceEdge :=
   { shapeID := 0, edgeID := 0, maxLevel := 30, hasInterior := false,
@@ -369,7 +416,7 @@ def exF1fe : FaceEdge :=
     path and appends exactly one face edge (on face 0) -/
 example : (addFaceEdge exF1fe).map (fun x => x.1) = [0] := by decide +kernel
 
-/-! ### FINDING: `faceClipErrorUVDist = 9·dblEpsilon` fails for nearly antipodal endpoints (PointCross has no relative accuracy) -/
+/-! ### FINDING (D60, repaired): `faceClipErrorUVDist = 9·dblEpsilon` failed for nearly antipodal endpoints (PointCross had no relative accuracy) -/
 
 /-- squared distance form of "the uv point `e` is within `δ` of the EXACT great circle through `a` and `b`" on face `f`:
     with `N = A × B` (exact, in the (u,v,w) frame of `f`) the line is `N.x·u + N.y·v + N.z = 0` -/
@@ -383,18 +430,23 @@ def WithinOfCircle (δ : ℝ) (f : Nat) (a b : V3) (e : R2) : Prop :=
 
 /-- the documented accuracy of `ClipToPaddedFace` (`faceClipErrorUVDist = 9 * dblEpsilon`: "the maximum distance from a clipped point to
     the corresponding exact result"), for unit-ish endpoints.  FALSE — `faceClipDocumented_false`. -/
-def FaceClipDocumented : Prop :=
+def FaceClipDocumentedOf (clip : V3 → V3 → Nat → F64 → Option (R2 × R2)) : Prop :=
   ∀ (a b : V3) (f : Nat) (p q : R2), UnitIsh a → UnitIsh b → f < 6 →
-    clipToPaddedFace a b f cellPadding = some (p, q) →
+    clip a b f cellPadding = some (p, q) →
     WithinOfCircle (9 * dblEps) f a b p ∧ WithinOfCircle (9 * dblEps) f a b q
+
+/-- the documented accuracy for the CURRENT (repaired, D60) `ClipToPaddedFace`: open (not proved; the counterexample below is gone,
+    `exF2_near_repaired`) -/
+def FaceClipDocumented : Prop := FaceClipDocumentedOf clipToPaddedFace
 
 /-- two unit vectors, antipodal up to one ulp per coordinate (`a + b = (2^-53, −2^-53, 2^-62) ≠ 0`) -/
 def exF2a : V3 := ⟨⟨0xbfe6a00328eb3734⟩, ⟨0x3fe6a136e4af2daf⟩, ⟨0xbf563ca930f4445c⟩⟩
 def exF2b : V3 := ⟨⟨0x3fe6a00328eb3735⟩, ⟨0xbfe6a136e4af2db0⟩, ⟨0x3f563ca930f4445d⟩⟩
 
-/-- kernel evaluation: on face 0 the model (like `/repo`) returns the first endpoint `(1 + 17·2^-52, 0.32480212635…)` -/
+/-- kernel evaluation, BEFORE repair D60: on face 0 the pre-repair model (like `/repo` then) returns the first endpoint
+    `(1 + 17·2^-52, 0.32480212635…)` -/
 theorem exF2_clip :
-    (match clipToPaddedFace exF2a exF2b 0 cellPadding with
+    (match clipToPaddedFaceOld exF2a exF2b 0 cellPadding with
       | some (p, _) => p.1.bits == 0x3ff0000000000011 && p.2.bits == 0x3fd4c98edb968e19
       | none => false) = true := by decide +kernel
 
@@ -431,13 +483,42 @@ theorem exF2_far : ¬ WithinOfCircle (1000 * dblEps) 0 exF2a exF2b (⟨0x3ff0000
   rw [h1, h2, h3, h4, h5, h6, h7, h8]
   norm_num
 
-/-- **the documented bound fails** (by a factor of more than 100) -/
-theorem faceClipDocumented_false : ¬ FaceClipDocumented := by
+/-- AFTER repair D60 the first endpoint on face 0 is `(1 + 17·2^-52, 0x3fd4c98edb969f49)` (what the repaired Go code returns) … -/
+theorem exF2_clip_repaired :
+    (match clipToPaddedFace exF2a exF2b 0 cellPadding with
+      | some (p, _) => p.1.bits == 0x3ff0000000000011 && p.2.bits == 0x3fd4c98edb969f49
+      | none => false) = true := by decide +kernel
+
+/-- … and it is within ONE dblEpsilon of the exact great circle (true value 0.017 dblEpsilon; before the repair 1085.9) -/
+theorem exF2_near_repaired : WithinOfCircle (1 * dblEps) 0 exF2a exF2b (⟨0x3ff0000000000011⟩, ⟨0x3fd4c98edb969f49⟩) := by
+  have h1 : rv (⟨0xbfe6a00328eb3734⟩ : F64) = -1592096229871053 / 2 ^ 51 :=
+    (rv_bits (m := -1592096229871053) (k := 1023) (by decide +kernel) (by norm_num)).trans (by norm_num)
+  have h2 : rv (⟨0x3fe6a136e4af2daf⟩ : F64) = 6369706624626095 / 2 ^ 53 :=
+    (rv_bits (m := 6369706624626095) (k := 1021) (by decide +kernel) (by norm_num)).trans (by norm_num)
+  have h3 : rv (⟨0xbf563ca930f4445c⟩ : F64) = -1564786714022167 / 2 ^ 60 :=
+    (rv_bits (m := -1564786714022167) (k := 1014) (by decide +kernel) (by norm_num)).trans (by norm_num)
+  have h4 : rv (⟨0x3fe6a00328eb3735⟩ : F64) = 6368384919484213 / 2 ^ 53 :=
+    (rv_bits (m := 6368384919484213) (k := 1021) (by decide +kernel) (by norm_num)).trans (by norm_num)
+  have h5 : rv (⟨0xbfe6a136e4af2db0⟩ : F64) = -398106664039131 / 2 ^ 49 :=
+    (rv_bits (m := -398106664039131) (k := 1025) (by decide +kernel) (by norm_num)).trans (by norm_num)
+  have h6 : rv (⟨0x3f563ca930f4445d⟩ : F64) = 6259146856088669 / 2 ^ 62 :=
+    (rv_bits (m := 6259146856088669) (k := 1012) (by decide +kernel) (by norm_num)).trans (by norm_num)
+  have h7 : rv (⟨0x3ff0000000000011⟩ : F64) = 4503599627370513 / 2 ^ 52 :=
+    (rv_bits (m := 4503599627370513) (k := 1022) (by decide +kernel) (by norm_num)).trans (by norm_num)
+  have h8 : rv (⟨0x3fd4c98edb969f49⟩ : F64) = 5851114940833609 / 2 ^ 54 :=
+    (rv_bits (m := 5851114940833609) (k := 1020) (by decide +kernel) (by norm_num)).trans (by norm_num)
+  unfold WithinOfCircle exF2a exF2b faceXYZtoUVW dblEps
+  simp only
+  rw [h1, h2, h3, h4, h5, h6, h7, h8]
+  norm_num
+
+/-- **the documented bound failed BEFORE repair D60** (by a factor of more than 100) -/
+theorem faceClipDocumented_false : ¬ FaceClipDocumentedOf clipToPaddedFaceOld := by
   intro h
   have hu1 : UnitIsh exF2a := by decide +kernel
   have hu2 : UnitIsh exF2b := by decide +kernel
   have hc := exF2_clip
-  cases hclip : clipToPaddedFace exF2a exF2b 0 cellPadding with
+  cases hclip : clipToPaddedFaceOld exF2a exF2b 0 cellPadding with
   | none => rw [hclip] at hc; exact absurd hc (by decide)
   | some pq =>
     obtain ⟨p, q⟩ := pq
